@@ -205,6 +205,11 @@ def selftest():
                      ("MC_Instances", "neg/MC_Instances_global.cfg"), ("MC_Instances", "neg/MC_Instances_tls.cfg"), ("MC_TestTimer", "MC_TestTimer_today.cfg")):
         r = vlib.run_tlc(os.path.join(vlib.SPEC, "mc", mod + ".tla"), os.path.join(vlib.SPEC, "mc", cfg), os.path.join(wd, "n_" + os.path.basename(cfg)), workers=4, timeout=900)
         say("negative control %s yields a counterexample" % cfg, "is violated" in r["out"])
+    try:
+        a = apalache_jitterapi(wd)
+        say("Apalache: IndInv of the JitterApi hand-out machine is inductive and implies the C16 invariants; its negative control is refuted (%.0f s)" % a["wall_s"], True)
+    except ToolError as ex:
+        say("Apalache inductive invariant of JitterApi: " + str(ex)[:300], False)
     # corrupted traces
     rng = random.Random(7)
     binp = vlib.build_harness()
@@ -382,6 +387,7 @@ def check_C12(tier, seed):
             raise ToolError("MC_JitterCollect (rounds=%d) did not complete cleanly (model level):\n%s" % (rounds, r["out"][-2000:]))
         mcs["rounds=%d" % rounds] = {"states_generated": r["states"], "distinct": r["distinct"]}
     S = corpora.c12_corpus(seed, tier)
+    special_value_cases(S, seed)
     return trace_check("C12", tier, seed, S, "Trace_Jitter.tla", "Trace_Jitter.cfg", weight=jit_weight,
                        extra_cov={"mc_model": {"module": "JitterCollect (one collection as Prime / Measure / StirReturn steps)", "configs": mcs,
                                                "invariants": ["ReadsExact", "ReturnsOnlyWhenCollected", "RotationsMatch", "StirOnlyAtEnd"],
@@ -408,7 +414,10 @@ def check_C14(tier, seed):
     for tag, S, spec, w in (("C14-jit", corpora.c14_jitter_corpus(seed, tier), "Trace_Jitter", jit_weight),
                             ("C14-api", corpora.c14_api_corpus(seed, tier), "Trace_Stream", None),
                             ("C14-alg", corpora.c14_alg_corpus(seed, tier), "Trace_Alg", None),
-                            ("C14-far", corpora.far_corpus(seed, tier), "Trace_Pair", None)):
+                            ("C14-far", corpora.far_corpus(seed, tier), "Trace_Pair", None),
+                            ("C14-tt", corpora.c13_corpus(seed, "quick", [{"mean": m, "zr": False, "zd": False, "back": 0, "mod": 0, "stuck": 0}
+                                                                          for m in sorted(set(list(range(0, 41)) + [v for k in range(6, 34) for v in ((1 << k) - 1, 1 << k, (1 << k) + 1)]))]),
+                             "Trace_Jitter", jit_weight)):
         ev, cs, res = run_trace(tag, S, spec + ".tla", spec + ".cfg", weight=w)
         parts.append((ev, cs, res))
         pan = only_panics(res["rejected"])
@@ -441,7 +450,7 @@ def check_C14(tier, seed):
         parts.append((ev, cs, res))
         pan = only_panics(res["rejected"])
         nviol += report_rejections("C14", pan, S4)
-    cov = base_cov(parts, "overflow-checked dev build; every operation wrapped in catch_unwind; the total specification expects exactly one panic (set_rounds(0)); hostile corpora: JitterRng timers with deltas +-(2^31-1), -2^31, 2^31, 2^32+-1, 2^63, u64 wrap-around, strictly decreasing, ping-pong between values 2^31 apart, in next_*/fill_bytes/timer_stats and across all 400 probes of test_timer; all-0xFF / all-zero / high-bit seeds and extreme u64 seeds of all 19 seedable types with fill_bytes lengths 0..17, block size +-1 (and 100000 in thorough) interleaved with next_*; jump/long_jump on all-ones states; positions past 2^8 and 2^16 blocks / words of every type (skipped natively, only a digest recorded). distinct = distinct recorded events",
+    cov = base_cov(parts, "overflow-checked dev build; every operation wrapped in catch_unwind; the total specification expects exactly one panic (set_rounds(0)); hostile corpora: JitterRng timers with deltas +-(2^31-1), -2^31, 2^31, 2^32+-1, 2^63, u64 wrap-around, strictly decreasing, ping-pong between values 2^31 apart, in next_*/fill_bytes/timer_stats and across all 400 probes of test_timer; test_timer over timers with every mean delta variation 0..40 and 2^k-1, 2^k, 2^k+1 up to 2^33 (then set_rounds); all-0xFF / all-zero / high-bit seeds and extreme u64 seeds of all 19 seedable types with fill_bytes lengths 0..17, block size +-1 (and 100000 in thorough) interleaved with next_*; jump/long_jump on all-ones states; positions past 2^8 and 2^16 blocks / words of every type (skipped natively, only a digest recorded). distinct = distinct recorded events",
                    ["Trace_Jitter", "Trace_Stream", "Trace_Alg"])
     cov["panic_scan"] = {"seeds_per_kind_constructed_three_ways_and_driven": scanned, "panicking_seeds_found": len(S4.cases)}
     cov["panics_observed"] = sum(1 for e, _, _ in parts for x in e if "panic" in x)
@@ -584,8 +593,9 @@ def check_C16(tier, seed):
                 else:
                     ops.append({"op": op, "g": a})
             S.case("handout cover #%d rounds=%d" % (wi, r), ops)
+    special_value_cases(S, seed)
     rc = trace_check("C16", tier, seed, S, "Trace_Jitter.tla", "Trace_Jitter.cfg", weight=jit_weight,
-                     rule="TLC explores the hand-out machine JitterApi (collections as tokens, <=3 instances incl. clone of clone, all interleavings of next_u32/next_u64/fill_bytes(n)/clone) and checks AtMostOnce, PendingIsHighHalfOfOwnValue and FreshOrPendingHalf; a negative control (Clone copying the flag) must fail; every edge of the projected graph (alive, pending flags) is executed on real JitterRng instances with their own scripted timer cursors, and Trace_Jitter, which executes the same plans on concrete pools, validates values, flags and readings consumed. distinct = distinct recorded events",
+                     rule="timer scripts constructed so that the first collected value is 0, all ones or has a zero / all-ones half are run through the same discipline. TLC explores the hand-out machine JitterApi (collections as tokens, <=3 instances incl. clone of clone, all interleavings of next_u32/next_u64/fill_bytes(n)/clone) and checks AtMostOnce, PendingIsHighHalfOfOwnValue and FreshOrPendingHalf; a negative control (Clone copying the flag) must fail; every edge of the projected graph (alive, pending flags) is executed on real JitterRng instances with their own scripted timer cursors, and Trace_Jitter, which executes the same plans on concrete pools, validates values, flags and readings consumed. distinct = distinct recorded events",
                      assumptions=JIT_ASSUME + ["fill_bytes(n in 1..4) with a half pending is left open between C05's and C16's wording: both plans are admitted"],
                      extra_cov={"mc_model": {"states_generated": mc["states"], "distinct": mc["distinct"], "max_collections": 4 if tier == "quick" else 6,
                                              "invariants": ["TypeOK", "AtMostOnce", "PendingIsHighHalfOfOwnValue", "FreshOrPendingHalf"],
@@ -927,6 +937,7 @@ def check_C17(tier, seed):
         few = lambda s, e: (e[0] != "fill_bytes" or e[1] <= 9) and (s == ("init", 0) or s[0] % 16 in (0, 15) or s[0] < 4)
         walks[kind] = cover.cover_walks(init, g, few, max_walk=40)
     S = corpora.c17_corpus(seed, tier, walks)
+    special_value_cases(S, seed, debug=True)
     ev, cs, res = run_trace("C17", S, "Trace_Debug.tla", "Trace_Debug.cfg", nshards=8)
     nviol = report_rejections("C17", res["rejected"], S)
     texts = sorted({e["text"] for e in ev if e.get("e") == "debug"})
@@ -1202,6 +1213,14 @@ def check_C06(tier, seed):
     return rc
 
 
+C07_PATHS = ("native", "other", "fill8", "fill64", "fill200")
+
+
+def c07_path_op(path, nat, other):
+    return {"native": {"op": nat, "g": 1, "n": 1}, "other": {"op": other, "g": 1}, "fill8": {"op": "fill_bytes", "g": 1, "n": 8},
+            "fill64": {"op": "fill_bytes", "g": 1, "n": 64}, "fill200": {"op": "fill_bytes", "g": 1, "n": 200}}[path]
+
+
 def c07_basis_corpus(seed, tier):
     """every unit-bit seed of all 15 linear types stepped ONCE (the columns of the transition matrix),
     plus random seeds stepped once (linearity samples)"""
@@ -1212,8 +1231,10 @@ def c07_basis_corpus(seed, tier):
         nb = 8 * corpora.SEEDLEN[kind]
         nat = corpora.native_op(kind)
         other = "next_u64" if nat == "next_u32" else "next_u32"
-        # every path that advances the state: the native call, the other next_*, and fill_bytes(8)
-        for path, mk in (("native", lambda: {"op": nat, "g": 1, "n": 1}), ("other", lambda: {"op": other, "g": 1}), ("fill8", lambda: {"op": "fill_bytes", "g": 1, "n": 8})):
+        # every path that advances the state: the native call, the other next_*, and fill_bytes of one word, of a
+        # 64-byte block and of several blocks plus a word (where a bulk path of a hand-written fill_bytes would sit)
+        for path in C07_PATHS:
+            mk = (lambda path=path: c07_path_op(path, nat, other))
             for lo in range(0, nb, 64):
                 ops = []
                 for b in range(lo, min(nb, lo + 64)):
@@ -1423,7 +1444,7 @@ def check_C07(tier, seed):
                     kind0, path = kp
                     nat = corpora.native_op(kind0)
                     other = "next_u64" if nat == "next_u32" else "next_u32"
-                    mkop = {"native": {"op": nat, "g": 1, "n": 1}, "other": {"op": other, "g": 1}, "fill8": {"op": "fill_bytes", "g": 1, "n": 8}}[path]
+                    mkop = c07_path_op(path, nat, other)
                     ops = []
                     for w, sd in ((0, seen[key][1]), (1, cur[1])):
                         o = dict(mkop)
@@ -1443,7 +1464,7 @@ def check_C07(tier, seed):
                         print("VIOLATION property=C07 replay=%s" % path2)
                         print("  %s/%s: the states with seeds %s and %s have the same successor" % (kp[0], kp[1], bytes(seen[key][1]).hex(), bytes(cur[1]).hex()))
                 seen.setdefault(key, cur)
-    cov = base_cov([(events, cases, tres)], "(1) for each of the 7 distinct linear engines TLC checks the certificate: Krylov rank n and P(T)e0 = 0 (so GF(2)[x]/P -> V, f |-> f(T)e0 is an isomorphism carrying x to T), x^(2^n) = x, the listed primes multiply to 2^n - 1, and for every prime q: cofactor*q = 2^n - 1 and x^cofactor # 1 - so x has order exactly 2^n - 1, GF(2)[x]/P is a field and T is a bijection permuting the 2^n - 1 non-zero states in a single cycle; (2) for every one of the 15 linear generator types and every path that advances the state (the native call, the other next_*, fill_bytes(8)) the transition matrix is extracted from the real code on the complete basis of unit-bit seeds (plus random seeds for linearity) and validated by TLC against the specification's T resp. T^2; (3) if a type's matrix differs from the reference, the same certificate is run on the extracted matrix and a violation is reported only with a certificate (a non-zero state stepping to zero, replayed on the code; or T^((2^n-1)/q) = I; or T^(2^n-1) # I). distinct = distinct recorded events", ["Trace_Alg", "ALG_Engine"])
+    cov = base_cov([(events, cases, tres)], "(1) for each of the 7 distinct linear engines TLC checks the certificate: Krylov rank n and P(T)e0 = 0 (so GF(2)[x]/P -> V, f |-> f(T)e0 is an isomorphism carrying x to T), x^(2^n) = x, the listed primes multiply to 2^n - 1, and for every prime q: cofactor*q = 2^n - 1 and x^cofactor # 1 - so x has order exactly 2^n - 1, GF(2)[x]/P is a field and T is a bijection permuting the 2^n - 1 non-zero states in a single cycle; (2) for every one of the 15 linear generator types and every path that advances the state (the native call, the other next_*, fill_bytes(8), fill_bytes(64), fill_bytes(200)) the transition matrix is extracted from the real code on the complete basis of unit-bit seeds (plus random seeds for linearity) and validated by TLC against the specification's T^k (k = words consumed); (3) if a type's matrix differs from the reference, the same certificate is run on the extracted matrix and a violation is reported only with a certificate (a non-zero state stepping to zero, replayed on the code; or T^((2^n-1)/q) = I; or T^(2^n-1) # I). distinct = distinct recorded events", ["Trace_Alg", "ALG_Engine"])
     cov["certificates"] = {"%s:%s" % k: {"verified": v[0], "tlc_wall_s": round(v[2], 1), "result": v[1][:160]} for k, v in sorted(res.items(), key=lambda kv: str(kv[0]))}
     cov["obligations"] = len(tasks)
     cov["discharged"] = len(tasks)
@@ -1457,3 +1478,125 @@ def check_C07(tier, seed):
                                          "hinted polynomials, cofactors and kernel vectors are untrusted and fully re-checked (inside TLC, or by replay on the code)", "linearity of the implementation is sampled by random seeds"],
                         time.time() - t0, nviol)
     return 1 if nviol else 0
+
+
+def special_value_cases(S, seed, debug=False):
+    """cases in which the first collected value of a JitterRng has a special shape (zero, all ones, a zero or all-ones
+    half): the hand-out discipline, the read position and the Debug text must not depend on the value"""
+    import random
+    rng = random.Random(seed * 31 + 5)
+    for rounds in (1, 2):
+        for name, (rd, val) in sorted(jitter_special_scripts(rounds).items()):
+            tail = corpora.jitter_script(rng, [("random", 400)])
+            walks = [[("next_u32", 0), ("next_u32", 0), ("next_u32", 0), ("next_u64", 0), ("next_u32", 0)],
+                     [("next_u64", 0), ("next_u32", 0), ("next_u32", 0), ("fill_bytes", 3), ("next_u32", 0)],
+                     [("next_u32", 0), ("fill_bytes", 0), ("next_u32", 0), ("fill_bytes", 12), ("next_u32", 0), ("next_u32", 0)]]
+            for wi, w in enumerate(walks):
+                ops = [{"op": "timer", "t": 1, "readings": [vlib.u64(x) for x in rd + tail], "cont": corpora.CONT},
+                       {"op": "jit_new", "g": 1, "t": 1}, {"op": "set_rounds", "g": 1, "r": rounds}]
+                if debug:
+                    # the same history over an ordinary timer, for comparison of the texts
+                    ops += [{"op": "timer", "t": 2, "readings": [vlib.u64(x) for x in corpora.jitter_script(rng, [("random", 500)])], "cont": corpora.CONT},
+                            {"op": "jit_new", "g": 2, "t": 2}, {"op": "set_rounds", "g": 2, "r": rounds}]
+                for gi in ((1, 2) if debug else (1,)):
+                    if debug:
+                        ops.append({"op": "debug", "g": gi})
+                    for e in w:
+                        ops.append(corpora.opj(e, gi))
+                        if debug:
+                            ops.append({"op": "debug", "g": gi})
+                    if wi == 0 and not debug:
+                        ops += [{"op": "clone", "g": 1, "to": 3}, {"op": "next_u32", "g": 3}, {"op": "next_u32", "g": 1}]
+                S.case("first collected value %s (rounds %d) walk %d" % (name, rounds, wi), ops, weight=80)
+    return S
+
+
+# ---------------------------------------------------------------- special collected values (input construction)
+_SPECIAL_CACHE = {}
+
+
+def jitter_special_scripts(rounds=1, seed=1):
+    """Timer scripts whose FIRST collected 64-bit value has a prescribed shape (upper half zero, lower half zero,
+    zero, all ones, upper half all ones).  Pure input construction: the value is affine over GF(2) in the bits of
+    the measured deltas as long as no measurement becomes stuck, so the real code is run on 1 + 32*(rounds+1)
+    scripts that differ in one delta bit, and the system is solved here.  Nothing is decided: a script is used only
+    if a final run of the real code shows the prescribed shape, and what the generator then does with such a value
+    is judged by the trace specifications like any other case.
+    Returns {name: (readings, value)}."""
+    import random
+    key = (rounds, seed, os.environ.get("VERIF_REPO", ""))
+    if key in _SPECIAL_CACHE:
+        return _SPECIAL_CACHE[key]
+    rng = random.Random(seed * 7919 + rounds)
+    binp = vlib.build_harness()
+    wd = vlib.workdir("special-%d" % rounds)
+    m = rounds + 1
+    M64 = (1 << 64) - 1
+    t0 = rng.getrandbits(44) + (1 << 40)
+    base = [rng.getrandbits(30) + (1 << 20) + 977 * k for k in range(m)]
+
+    def script(ds):
+        rd, t = [t0], t0
+        for d in ds:
+            sd = d - (1 << 32) if d >= (1 << 31) else d
+            nt = (t + sd) & M64
+            rd += [(t + 3) & M64, nt, (nt + 5) & M64]
+            t = nt
+        return rd
+
+    def run(variants):
+        ops = []
+        for i, ds in enumerate(variants):
+            ops += [{"op": "reset"}, {"op": "timer", "t": 1, "readings": [vlib.u64(x) for x in script(ds)], "cont": corpora.CONT},
+                    {"op": "jit_new", "g": 1, "t": 1}, {"op": "set_rounds", "g": 1, "r": rounds}, {"op": "next_u64", "g": 1, "tag": i}]
+        sp, tp = os.path.join(wd, "x.s"), os.path.join(wd, "x.t")
+        vlib.write_ndjson(sp, ops)
+        vlib.drive(binp, sp, tp)
+        out = {}
+        for e in vlib.read_ndjson(tp):
+            if e.get("e") == "next_u64" and "tag" in e and "ret" in e and len(e.get("reads", [])) == 1 + 3 * m:
+                out[e["tag"]] = vlib.from_limbs(e["ret"])
+        return out
+    variants = [list(base)]
+    unknowns = []
+    for k in range(m):
+        for b in range(32):
+            v = list(base)
+            v[k] ^= 1 << b
+            variants.append(v)
+            unknowns.append((k, b))
+    vals = run(variants)
+    res = {}
+    if 0 in vals:
+        v0 = vals[0]
+        cols = [(i, vals[i + 1] ^ v0) for i in range(len(unknowns)) if (i + 1) in vals]
+        targets = {"upper half zero": (0xFFFFFFFF00000000, 0), "lower half zero": (0xFFFFFFFF, 0), "zero": (M64, 0),
+                   "all ones": (M64, M64), "upper half all ones": (0xFFFFFFFF00000000, 0xFFFFFFFF00000000)}
+        for name, (mask, want) in targets.items():
+            # Gaussian elimination over GF(2): find a subset of columns whose xor equals (v0 ^ want) on the masked bits
+            rows = []          # (masked vector, combination bitset)
+            for j, (i, c) in enumerate(cols):
+                vec, comb = c & mask, 1 << j
+                for pv, pc in rows:
+                    if vec & (pv & -pv):
+                        vec, comb = vec ^ pv, comb ^ pc
+                if vec:
+                    rows.append((vec, comb))
+            need, comb = (v0 ^ want) & mask, 0
+            for pv, pc in rows:
+                if need & (pv & -pv):
+                    need, comb = need ^ pv, comb ^ pc
+            if need:
+                continue
+            ds = list(base)
+            for j, (i, c) in enumerate(cols):
+                if comb >> j & 1:
+                    k, b = unknowns[i]
+                    ds[k] ^= 1 << b
+            got = run([ds])
+            if 0 in got and (got[0] & mask) == want:
+                res[name] = (script(ds), got[0])
+    import shutil
+    shutil.rmtree(wd, ignore_errors=True)
+    _SPECIAL_CACHE[key] = res
+    return res
